@@ -102,7 +102,33 @@ RESPONSE_FNS = ['returns', 'returns_default', 'answers', 'answers_arc', 'panics'
 def module_private(f, d=0, n=''):
     """inline policy: helpers private to their module (`fn`, `pub(self)`, `pub(in module)`) are part of the function that calls
     them; crate-visible and public functions are analysed on their own"""
-    return f.kind in ('fn', 'assoc') and bool(f.vis) and f.vis.startswith('Restricted') and '::' in f.vis.split('~', 1)[-1] and len(f.blocks) < 60
+    if f.kind not in ('fn', 'assoc') or not f.vis or not f.vis.startswith('Restricted') or '::' not in f.vis.split('~', 1)[-1] or len(f.blocks) >= 60:
+        return False
+    # (narrowing the visibility of a function of the reference tree - `pub(crate)` -> `pub(super)` - does not make it a helper: the
+    #  functions the rules know by name are analysed on their own whatever their visibility is today)
+    if not symex.is_new_helper(f) and _was_wider(f):
+        return False
+    return True
+
+
+_BASE_VIS = {}
+
+
+def _was_wider(f):
+    """the function exists on the reference tree and was not module-private there"""
+    import json
+    import names
+    crate = getattr(f.facts, 'crate', None)
+    if crate not in _BASE_VIS:
+        try:
+            base = json.load(open(names.BASELINE))
+            for c, inv in base.items():
+                _BASE_VIS[c] = {d: v.get('modpriv') for d, v in inv.get('fns', {}).items()}
+        except Exception:
+            _BASE_VIS[crate] = {}
+    known = _BASE_VIS.get(crate) or {}
+    mp = known.get(f.defp, known.get(f.rawdef))
+    return mp is False
 
 
 FLAVOUR = [
@@ -253,3 +279,59 @@ def ordered_implicit_once(chk, F, rule, cfg):
         names = [e.data[1] for e in p.calls()]
         ok = any(re.search(r'QuantifyReturnValue::once$', n) for n in names) and any(re.search(r'^Clause::deconstruct$|QuantifiedResponse.*deconstruct$', n) for n in names)
         chk.ob(rule, 'unquantified returns(v) as a clause = once()', ok, config=cfg, fn=qrv, site='once', what='QuantifyReturnValue::deconstruct', found=names)
+
+
+def returner_error_latched(chk, F, rule, cfg):
+    """push_returner_result(result): Ok(r) files r's responder and leaves the builder's error slot alone; Err(e) files nothing and leaves
+    the error slot filled (with e, or with an earlier error). The slot is only ever written `Some(..)` here and emptied by the assembler
+    when the pattern is registered - so a return value that cannot be produced in this feature set always reaches the assembler,
+    however many further responses are chained after it."""
+    fn = F.fn('build::dyn_builder::DynBuilderWrapper::push_returner_result')
+    pol = lambda f_, d_, n_: f_.defp.startswith('build::dyn_builder::') and f_.kind in ('fn', 'assoc', 'closure') and not re.search(r'::push_responder$', f_.defp)  # noqa: E731
+    paths = symex.Interp(F, inline=pol).run(fn)
+    chk.analysed(fn)
+    seen = set()
+    for p in paths:
+        if p.outcome[0] != 'return':
+            continue
+        var = None
+        filled = None
+        for d in p.decisions:
+            v = strip(d.value)
+            if v[0] == 'discr' and strip(v[1]) == ('param', 0, 2):
+                var = symex.decision_variant(F, d)
+            inner, t = L.truth_of(d)
+            if t is not None and is_call(inner, r'Option::(is_none|is_some)$') and field_path(inner[2][0])[1][-1:] == ['responder_error']:
+                filled = (inner[1].endswith('is_some') == t)
+            if v[0] == 'discr' and field_path(v[1])[1][-1:] == ['responder_error'] and symex.decision_variant(F, d) in ('Some', 'None'):
+                filled = symex.decision_variant(F, d) == 'Some'
+        ws = [e for e in p.effects if e.kind == 'write' and e.data[0][1][-1:] == (('f', 'responder_error'),)]
+        pushes = list(p.calls(r'Dyn\w+::push_responder$'))
+        if var is None:
+            chk.ob(rule, 'push_returner_result decides on the conversion result', False, config=cfg, fn=fn, site='result', unrecognised=True, what='no decision on the result', found=[show(d.value)[:80] for d in p.decisions])
+            continue
+        seen.add(var)
+        some_ws = [e for e in ws if strip(e.data[1])[0] == 'agg' and strip(e.data[1])[3] == 'Some']
+        if var == 'Ok':
+            ok = not ws and len(pushes) == 1 and mentions(pushes[0].data[2][1], lambda x: x[0] == 'as' and x[2] == 'Ok' and strip(x[1]) == ('param', 0, 2))
+            chk.ob(rule, 'a producible return is filed as a response and leaves the error slot alone', ok, config=cfg, fn=fn, site='ok', what='Ok: %d writes to the error slot, %d responses filed' % (len(ws), len(pushes)),
+                   found={'error slot writes': [show(e.data[1])[:80] for e in ws], 'push_responder': len(pushes)})
+        else:
+            # (`slot.get_or_insert(e)` / `slot.insert(e)`: std's spelling of "fill it with e unless / even if it is filled")
+            fills = [e for e in p.calls(r'Option::(get_or_insert|get_or_insert_with|insert)$') if field_path(e.data[2][0])[1][-1:] == ['responder_error']]
+            empt = [e for e in p.calls(r'Option::take$|mem::(take|replace|swap)$') if field_path(e.data[2][0])[1][-1:] == ['responder_error']]
+            if fills and not ws and not empt and not pushes:
+                okf = mentions(fills[-1].data[2][1], lambda x: x[0] == 'as' and x[2] == 'Err' and strip(x[1]) == ('param', 0, 2)) or fills[-1].data[1].endswith('_with')
+                chk.ob(rule, 'an unproducible return leaves the error slot filled (this error, or an earlier one) and files nothing', okf, config=cfg, fn=fn, site='err', what='Err: %s' % fills[-1].data[1].rsplit('::', 1)[-1],
+                       found=show(fills[-1].data[2][1])[:120])
+                continue
+            ends_filled = not empt and (bool(ws) and ws[-1] in some_ws and mentions(ws[-1].data[1], lambda x: x[0] == 'as' and x[2] == 'Err' and strip(x[1]) == ('param', 0, 2)) or (not ws and filled is True))
+            ok = ends_filled and len(some_ws) == len(ws) and not pushes
+            chk.ob(rule, 'an unproducible return leaves the error slot filled (this error, or an earlier one) and files nothing', ok, config=cfg, fn=fn, site='err', what='Err: slot filled=%s, responses filed=%d' % (ends_filled, len(pushes)),
+                   found={'error slot writes': [show(e.data[1])[:80] for e in ws], 'slot was filled': filled, 'push_responder': len(pushes)})
+    chk.floor(rule, 'outcomes of the conversion handled by push_returner_result', len(seen), 2, config=cfg)
+    # the slot's writers
+    acc = L.field_accesses(F, 'build::dyn_builder::DynCallPatternBuilder', 'responder_error')
+    writers = L.attributed(F, acc, kinds=('write', 'construct'))
+    okw = set(writers) <= {fn.defp, 'build::dyn_builder::DynCallPatternBuilder::new'}
+    chk.ob(rule, 'the error slot is written only by the constructor (empty) and by push_returner_result', okw, config=cfg, site='field:responder_error', what='writers of responder_error', found=writers)
